@@ -103,7 +103,7 @@ func Checks() map[string]*simcore.Check {
 		},
 		"C45": {
 			ID: "C45", Engine: "netsim", Level: "exploration",
-			Rule: "plan = 2-3 node keys, crypto seed, 8-60 operations: send / exchange (send + clean delivery chain) of any of the six message types, deliver an in-flight packet (ok, duplicate, drop, flip a byte in a chosen region, cut, extend, deliver to another node, deliver from another address), replay any earlier packet, reset a node's codec (sessions and challenges lost), advance the shared clock (7 ms .. 5 s), bump a node's record, answer a challenge with a hand-written handshake packet carrying a record with a chosen defect, differential probes of record decoding with chosen mutations; then faults stop and one PING per direction must get through. Non-trivial = at least one fault kind fired; distinct = distinct hashes of (all wire packets, all decode verdicts).",
+			Rule: "plan = 2-3 node keys, crypto seed, 8-60 operations: send / exchange (send + clean delivery chain) of any of the six message types, deliver an in-flight packet (ok, duplicate, drop, flip a byte in a chosen region, cut, extend, deliver to another node, deliver from another address), replay any earlier packet, reset a node's codec (sessions and challenges lost), advance the shared clock (7 ms .. 5 s), bump a node's record, put off the handshake reply to a WHOAREYOU until the node has decoded another datagram, answer a challenge with a hand-written handshake packet carrying a record with a chosen defect, impersonate a made-up identity from a real node's address, differential probes of record decoding with chosen mutations; then faults stop and one PING per direction must get through. Non-trivial = at least one fault kind fired; distinct = distinct hashes of (all wire packets, all decode verdicts).",
 			Assumptions: []string{
 				"the harness plays the part of UDPv5 around the codec (call table keyed by nonce, one handshake per call, WHOAREYOU repeated while a challenge is outstanding, calls time out after 700 ms); matching a WHOAREYOU to a sent packet is therefore harness code, not code under test",
 				"in-session duplicates are legal in discv5 (no replay window inside a session): the oracle requires them to decode to the same message",
@@ -113,7 +113,7 @@ func Checks() map[string]*simcore.Check {
 				Stub: []string{"UDP socket and UDPv5 call handling (harness)", "clock (mclock.Simulated)", "hand-written handshake sender (independent implementation of the wire spec)", "reference record validator"}},
 			Runs: map[string]int{"quick": 40000, "thorough": 1500000},
 			Gen:  Gen45, Decode: Decode45, Run: Run45, Shrink: Shrink45,
-			ProbeNames: []string{"handshake-accepted", "handshake-record-accepted", "in-session-decode", "in-session-duplicate-decoded", "challenge-repeated", "challenge-without-call", "forged-valid-handshake-accepted", "liveness-ping-delivered", "record-accepted", "record-probe-size300", "record-probe-size301"},
+			ProbeNames: []string{"handshake-accepted", "handshake-record-accepted", "in-session-decode", "in-session-duplicate-decoded", "challenge-repeated", "challenge-without-call", "forged-valid-handshake-accepted", "liveness-ping-delivered", "deferred-handshake-sent", "fresh-identity-handshake-accepted", "record-accepted", "record-probe-size300", "record-probe-size301"},
 		},
 	}
 }
